@@ -7,6 +7,8 @@ structure SmtState where
   terms : Terms := #[]
   vm : Array (Option Term) := #[]
   st : Cdcl.State := {}
+  roots : List Term := []
+  trust : Bool := false
   nInput : Nat := 0
   nTheory : Nat := 0
   nLearn : Nat := 0
@@ -14,6 +16,13 @@ structure SmtState where
   rupLits : Nat := 0
 
 def SmtState.varMap (s : SmtState) : VarMap := fun v => (s.vm[v]?).join
+
+/-- the proved machine's state corresponding to the driver state -/
+def SmtState.toSmt (s : SmtState) : Smt.State :=
+  { vm := s.varMap, trustTheory := s.trust, roots := s.roots, core := s.st }
+
+def SmtState.stepSmt (s : SmtState) (e : Smt.Event) : Option SmtState :=
+  (Smt.step? s.toSmt e).map (fun k => { s with st := k.core, roots := k.roots })
 
 /-- certificate tokens: `F n w1..wn` | `S <lo> <hi>` -/
 partial def parseLACert : List String → Option (LA.Cert × List String)
@@ -32,21 +41,41 @@ partial def parseLACert : List String → Option (LA.Cert × List String)
       | some (hi, r2) => some (.split lo hi, r2)
   | _ => none
 
-def clauseTerms (vm : VarMap) (c : Clause) : Option (List (Term × Bool)) :=
-  c.mapM (fun l => (vm l.var).map (fun t => (t, l.neg)))
+/-- EUF steps: `H i` | `R t` | `Y j` | `X j k` | `C a b n j1..jn`, then `G goal` -/
+def parseEUFSteps (tt : Terms) : Nat → List String → List EUF.Step → Option (List EUF.Step × List String)
+  | 0, toks, acc => some (acc.reverse, toks)
+  | n+1, toks, acc =>
+    let tm (s : String) : Option Term := s.toNat?.bind (fun i => tt[i]?)
+    match toks with
+    | "H" :: i :: r => i.toNat?.bind (fun i => parseEUFSteps tt n r (.hyp i :: acc))
+    | "R" :: t :: r => (tm t).bind (fun t => parseEUFSteps tt n r (.refl t :: acc))
+    | "Y" :: j :: r => j.toNat?.bind (fun j => parseEUFSteps tt n r (.symm j :: acc))
+    | "X" :: j :: k :: r => match j.toNat?, k.toNat? with
+      | some j, some k => parseEUFSteps tt n r (.trans j k :: acc)
+      | _, _ => none
+    | "C" :: a :: b :: k :: r => match tm a, tm b, k.toNat? with
+      | some a, some b, some k =>
+        let js := (r.take k).filterMap String.toNat?
+        if js.length = k then parseEUFSteps tt n (r.drop k) (.congr a b js :: acc) else none
+      | _, _, _ => none
+    | _ => none
 
-def theoryOk (vm : VarMap) (c : Clause) (certToks : List String) : Except String Unit :=
-  match clauseTerms vm c with
-  | none => .error "literal without term"
-  | some lits =>
-    match certToks with
-    | "LA" :: toks =>
-      match parseLACert toks with
-      | some (cert, _) => if LA.laClauseCheck lits cert then .ok () else .error "LA certificate rejected"
-      | none => .error "bad LA certificate"
-    | "NONE" :: _ => .error "no certificate produced"
-    | [] => .error "no certificate"
-    | k :: _ => .error s!"unknown certificate kind {k}"
+def parseCert (tt : Terms) (certToks : List String) : Except String Smt.ThCert :=
+  match certToks with
+  | "LA" :: toks =>
+    match parseLACert toks with
+    | some (cert, _) => .ok (.la cert)
+    | none => .error "bad LA certificate"
+  | "EUF" :: n :: toks =>
+    match n.toNat? with
+    | none => .error "bad EUF certificate"
+    | some n =>
+      match parseEUFSteps tt n toks [] with
+      | some (steps, ["G", g]) => .ok (.euf steps (g.toNat?.getD 0))
+      | _ => .error "bad EUF certificate"
+  | "NONE" :: _ => .ok .trusted
+  | [] => .ok .trusted
+  | k :: _ => .error s!"unknown certificate kind {k}"
 
 def smtLine (s : SmtState) (lineNo : Nat) (line : String) : Except String SmtState := do
   match words line with
@@ -61,6 +90,7 @@ def smtLine (s : SmtState) (lineNo : Nat) (line : String) : Except String SmtSta
       let vm := if v ≥ s.vm.size then s.vm ++ Array.replicate (v + 1 - s.vm.size) none else s.vm
       pure { s with vm := vm.set! v (some s.terms[t]!) }
     | _, _ => throw s!"line {lineNo}: bad V"
+  | ["O", "trust-theory"] => pure { s with trust := true }
   | ["F", f] => pure { s with st := { s.st with fuel := f.toNat?.getD 0 } }
   | "I" :: root :: frame :: lits =>
     let c := parseLits lits
@@ -72,33 +102,31 @@ def smtLine (s : SmtState) (lineNo : Nat) (line : String) : Except String SmtSta
       let eff : Term := match frame.toNat? with
         | some f => if f < s.terms.size then .app .or [rootT, s.terms[f]!] else rootT
         | none => rootT
-      if inputOk s.varMap eff c then
-        match step? s.st (.axiom_ c) with
-        | some st => pure { s with st := st, nInput := s.nInput + 1 }
-        | none => throw s!"line {lineNo}: REJECT input"
-      else throw s!"line {lineNo}: REJECT input-clause-not-entailed-by-root"
+      match s.stepSmt (.input eff c) with
+      | some s' => pure { s' with nInput := s.nInput + 1 }
+      | none => throw s!"line {lineNo}: REJECT input-clause-not-entailed-by-root"
   | "TH" :: kind :: rest =>
     let lits := rest.takeWhile (· ≠ "0")
     let certToks := (rest.dropWhile (· ≠ "0")).drop 1
     let c := parseLits lits
-    match theoryOk s.varMap c certToks with
+    match parseCert s.terms certToks with
     | .error e => throw s!"line {lineNo}: REJECT theory-clause-not-certified kind={kind} {e}"
-    | .ok () =>
-      match step? s.st (.axiom_ c) with
-      | some st => pure { s with st := st, nTheory := s.nTheory + 1 }
-      | none => throw s!"line {lineNo}: REJECT theory"
+    | .ok cert =>
+      match s.stepSmt (.theory c cert) with
+      | some s' => pure { s' with nTheory := s.nTheory + 1 }
+      | none => throw s!"line {lineNo}: REJECT theory-clause-not-certified kind={kind} cert={certToks.head?.getD "none"}"
   | "L" :: lits =>
     let c := parseLits lits
-    match step? s.st (.learn c) with
-    | some st => pure { s with st := st, nLearn := s.nLearn + 1, rupLits := s.rupLits + c.length }
+    match s.stepSmt (.learn c) with
+    | some s' => pure { s' with nLearn := s.nLearn + 1, rupLits := s.rupLits + c.length }
     | none => throw s!"line {lineNo}: REJECT learnt-clause-not-RUP"
   | "A" :: "sat" :: lits =>
-    match step? s.st (.answer (.sat (parseLits lits))) with
-    | some st => pure { s with st := st, nAnswer := s.nAnswer + 1 }
+    match s.stepSmt (.answer (.sat (parseLits lits))) with
+    | some s' => pure { s' with nAnswer := s.nAnswer + 1 }
     | none => throw s!"line {lineNo}: REJECT sat-model-falsifies-input-clause"
   | "A" :: "unsat" :: lits =>
-    match step? s.st (.answer (.unsat (parseLits lits))) with
-    | some st => pure { s with st := st, nAnswer := s.nAnswer + 1 }
+    match s.stepSmt (.answer (.unsat (parseLits lits))) with
+    | some s' => pure { s' with nAnswer := s.nAnswer + 1 }
     | none => throw s!"line {lineNo}: REJECT unsat-not-confirmed-by-propagation"
   | "A" :: "unknown" :: _ => pure { s with nAnswer := s.nAnswer + 1 }
   | w :: _ => throw s!"line {lineNo}: unknown record {w}"
